@@ -95,6 +95,30 @@ def run_history(spec, kind, g, pre, perturb, seed):
     return ("ok", outs[0], outs[1], consumed)
 
 
+def run_with_sibling(spec, kind, seed, sibling_seed, order):
+    """Two live instances of one spec. a gets seed, b gets sibling_seed (another generator object), then calls interleave.
+    Returns the digests of a's N_CALLS outputs (or an ('exc', ...) tuple)."""
+    import numpy as np
+    set_global(0)
+    try:
+        a, b = cat.build(spec), cat.build(spec)
+        a.set_rng(np.random.default_rng(seed))
+        b.set_rng(np.random.default_rng(sibling_seed))
+        out = []
+        if order == "b_first":
+            for j in range(N_CALLS):
+                b(cat.inputs(kind, j), ctx={})
+        for j in range(N_CALLS):
+            if order == "alternate":
+                b(cat.inputs(kind, j), ctx={})
+            ctx = {}
+            y = a(cat.inputs(kind, j), ctx=ctx)
+            out.append(dig((y, ctx)))
+        return ("ok", out)
+    except Exception as e:
+        return ("exc", f"{type(e).__name__}: {e}")
+
+
 def histories():
     for g in (0, 1):
         for pre in (0, 1, 2):
@@ -143,6 +167,18 @@ def check_spec(spec, p):
                     p.state((name, kind, seed, k, key[-1]))
                 if first is None:
                     first = dict(g=g, pre=pre, perturb=perturb)
+            # a second live instance of the same spec must not matter (no state shared between instances)
+            if (0 in [k for (sd, k) in table if sd == seed]) and spec[0] in ("leaf", "compose", "random_apply"):
+                ref = [table[(seed, k)][-1] for k in range(N_CALLS) if (seed, k) in table]
+                for sib, order in ((seed, "b_first"), (seed + 100, "alternate"), (seed + 100, "b_first")):
+                    r = run_with_sibling(spec, kind, seed, sib, order)
+                    p.evaluations += 1
+                    if r[0] == "ok" and len(ref) == N_CALLS and r[1] != ref:
+                        p.violation(f"C07:depends_on_a_sibling_instance|{name}", dict(spec=spec, input=kind, seed=seed, sibling_seed=sib, order=order),
+                                    f"{cat.spec_name(spec)} on {kind}: instance a (seed {seed}) gives other outputs when a second instance "
+                                    f"of the same transform is seeded with {sib} and used ({order})")
+                        break
+                    p.transitions += 2 * N_CALLS
             # different seeds should not all coincide (vacuity guard is the distinct counter)
             for st, key in table.items():
                 p.observe((name, kind, st, key[-1]))
